@@ -469,7 +469,7 @@ func c14Term(c c14Case) string {
 		callers[i] = fmt.Sprintf("mkOCaller %d %s %s %s %d %d %d", n, CoqBool(hit && c.Obs.Fired), CoqBool(o.Returned),
 			CoqList(o.Runs, func(r [2]int) string { return fmt.Sprintf("(%d,%d)", r[0], r[1]) }), o.Errs, o.Bogus, c.Obs.LowerBound[i])
 	}
-	return fmt.Sprintf("mkOCase %d %s %s [%s] %d %s %d %s", c.Workers, mode, CoqBool(c.Obs.Fired),
+	return fmt.Sprintf("mkOCase %d %s %s %s [%s] %d %s %d %s", c.Workers, mode, CoqBool(c.Obs.Fired), CoqBool(c.Target == "group"),
 		strings.Join(callers, "; "), c.Obs.Peak, CoqBool(c.Obs.StopReturned), c.Obs.Left, CoqBool(c.Obs.Stranded > 0))
 }
 
@@ -492,14 +492,23 @@ func TestC14(t *testing.T) {
 			cases = append(cases, c14Random(r))
 		}
 	}
-	cf := NewCaseFile("C14", "Model.Worker", "Gen.Generated", "Gen.GeneratedC14")
+	if from, emit, ok := isoChild[c14Obs](); ok {
+		for i := from; i < len(cases); i++ {
+			runC14Case(t, &cases[i])
+			emit(i, cases[i].Obs)
+		}
+		return
+	}
+	obs := isoParent(t, "TestC14", dir, len(cases), func(i int, tail string) c14Obs {
+		return c14Obs{Stranded: -1, Panic: "process crashed while running this case: " + tail}
+	})
+	cf := NewCaseFile("C14", "Model.Worker", "Gen.GeneratedC14")
 	fam, modes := map[string]int{}, map[string]int{}
 	hangs, stranded, panics := 0, 0, 0
 	var violations []map[string]any
 	for i := range cases {
 		c := &cases[i]
-		c.Obs = c14Obs{}
-		runC14Case(t, c)
+		c.Obs = obs[i]
 		for len(c.Obs.Callers) < len(c.Jobs) { // the bubble died before recording
 			c.Obs.Callers = append(c.Obs.Callers, c14Caller{})
 			c.Obs.LowerBound = append(c.Obs.LowerBound, 0)
